@@ -368,6 +368,11 @@ def random_full(res, T, rng, n):
     from rv.modules import MODULE_CLASSES
     t = spec.load()[T]
     cls = MODULE_CLASSES[t.mtype]
+    if rng.random() < 0.5:
+        # an application's own subclass (adds a helper, changes nothing): its instances - and, since the type name now
+        # resolves to it, everything loaded from files - carry the same options
+        cls = type(cls.__name__, (cls,), {"rvmon_helper": lambda self: self.name, "__module__": cls.__module__, "__doc__": cls.__doc__})
+        res.count("runs_on_application_subclass")
     for _ in range(n):
         names = [o.name for o in t.options]
         rng.shuffle(names)
@@ -431,6 +436,37 @@ def random_full(res, T, rng, n):
         observe(res, T, t, cls, mod, model, case, f"{path} assignment")
         # second stage: the module is now taken from a file (clone) and its options are changed again,
         # in particular lowered / switched off; what is saved must be the new state, not the loaded record
+        if rng.random() < 0.25:
+            # third stage: the module lives inside the project of a MetaModule that came from a file; its options are
+            # edited there, the MetaModule is saved and loaded again
+            import rv.api as api
+            holder = api.m.MetaModule()
+            try:
+                holder.project.attach_module(mod.clone())
+                loaded = holder.clone()
+                inner = loaded.project.modules[1]
+                model3 = Model(t)
+                model3.stored = dict(model.stored)
+                model3.sync_group(inner, res)
+                stage3 = []
+                for nm in rng.sample(names, rng.randint(1, len(names))):
+                    o = by[nm]
+                    cur = getattr(inner, nm)
+                    v = (not cur) if o.size == 1 else rng.choice([x for x in _all_values(o) if x != _ival(cur)])
+                    setattr(inner, nm, v)
+                    model3.assign(nm, v)
+                    model3.sync_partners(nm, inner, res)
+                    stage3.append([nm, _ival(v)])
+                again = loaded.clone()
+                res.count("embedded_stage_assignments")
+                for o in t.options:
+                    got, want = getattr(again.project.modules[1], o.name), model3.logical(o.name)
+                    if _ival(got) != _ival(want):
+                        res.violation(f"C11:embedded:{T}.{o.name}", f"{T}.{o.name} edited inside a loaded MetaModule's project: got {got!r} after save/load, expected {want!r} (edits {stage3})",
+                                      dict(case, stage3=stage3))
+                        break
+            except Exception as e:
+                res.violation(f"C11:embedded-raises:{T}:{workload.exc_key(e)}", f"{T} inside a loaded MetaModule: {e!r}", case)
         if rng.random() < 0.5:
             mod2 = mod.clone()
             model.sync_group(mod2, res)
